@@ -98,6 +98,19 @@ def maxcv_allow(V, scale):
     return 1e-9 * (1.0 + abs(V) + scale)
 
 
+def exact_violation(stmt):
+    """Without linear constraints the reference violation is computed by the very same subtractions as the
+    solver's (bounds, `lb - c`, `c - ub`): no rounding can differ, so no closeness-to-the-tolerance guard and no
+    allowance is needed (e.g. feasibility_tol = 0 is then decided exactly)."""
+    return not (stmt.get("linear") or [])
+
+
+def ambiguous_feasibility(stmt, V, scale, tol):
+    if exact_violation(stmt):
+        return False
+    return near_tol(V, tol) or (V > 0 and abs(V - tol) <= maxcv_allow(V, scale))
+
+
 def find_eval_of_x(evals, x, ulps=4):
     """Indices of evaluations whose point equals x (bitwise first, then within ulps)."""
     xb = np.array(x, dtype=float).tobytes()
@@ -208,10 +221,7 @@ def c03(rec, st):
         if e.fun is None:
             return out
         V, scale, has_nan = V_of(rec, e)
-        if not has_nan and near_tol(V, tol):
-            st["c03.skip_near_tol"] += 1
-            return out
-        if not has_nan and V > 0 and scale > 1.0 and abs(V - tol) <= maxcv_allow(V, scale):
+        if not has_nan and ambiguous_feasibility(stmt, V, scale, tol):
             st["c03.skip_near_tol"] += 1
             return out
         pairs.append((float(e.fun), V, scale))
@@ -233,7 +243,7 @@ def c03(rec, st):
     feas = [p for p in pairs if p[1] == p[1] and p[1] <= tol and p[0] == p[0]]
     if feas:
         fmin = min(p[0] for p in feas)
-        if not (rv <= tol + maxcv_allow(rv, 1.0)) or rf != rf:
+        if not (rv <= tol + (0.0 if exact_violation(stmt) else maxcv_allow(rv, 1.0))) or rf != rf:
             out.append(Viol("C03", "feasible_first",
                             "a feasible evaluated point with defined objective exists (fun=%r) but the result has "
                             "fun=%r maxcv=%r" % (fmin, rf, rv), key="feasible_first"))
@@ -483,14 +493,16 @@ def c07(rec, st):
     ps = rec.probe
     amb = False
     Vres = None
+    Vnan = False
     if evals and res.get("x") is not None and consistent(stmt) and not refmodel.contradictory_limits(stmt):
         cands, _ = find_eval_of_x(evals, res["x"])
         cands = [e for e in cands if e.fun is not None and beq(float(e.fun), float(res["fun"]))] or cands
         if cands:
             V, scale, has_nan = V_of(rec, cands[-1])
+            Vnan = bool(has_nan)
             if not has_nan:
                 Vres = V
-                amb = near_tol(V, tol) or abs(V - tol) <= maxcv_allow(V, scale)
+                amb = ambiguous_feasibility(stmt, V, scale, tol)
     if status == 0:
         if ps is not None and ps.final is not None and "resolution" in ps.final:
             if not (ps.final["resolution"] <= ps.final["rhoend"]):
@@ -509,6 +521,9 @@ def c07(rec, st):
         elif Vres is not None and not amb and Vres > tol:
             out.append(Viol("C07", "b1", "status 1 but the returned point violates the constraints by %r > %r"
                             % (Vres, tol), key="status1_feas"))
+        elif Vnan:
+            out.append(Viol("C07", "b1", "status 1 but a constraint is undefined (NaN) at the returned point",
+                            key="status1_nan"))
     elif status == 2:
         if not consistent(stmt) or n_free_of(stmt) != 0:
             out.append(Viol("C07", "b2", "status 2 but %d variables are not fixed" % n_free_of(stmt), key="status2"))
@@ -526,6 +541,9 @@ def c07(rec, st):
         elif Vres is not None and not amb and Vres > tol:
             out.append(Viol("C07", "b4", "status 4 but the returned point violates the constraints by %r" % Vres,
                             key="status4_feas"))
+        elif Vnan:
+            out.append(Viol("C07", "b4", "status 4 but a constraint is undefined (NaN) at the returned point",
+                            key="status4_nan"))
     elif status == 5:
         maxfev = opt(stmt, "maxfev")
         if maxfev is None and ps is not None and ps.final is not None:
@@ -553,6 +571,9 @@ def c07(rec, st):
         elif Vres is not None and not amb and Vres > tol:
             out.append(Viol("C07", "c", "success but the true violation at the returned point is %r > %r" % (Vres, tol),
                             key="success_true_violation"))
+        elif Vnan:
+            out.append(Viol("C07", "c", "success although a constraint is undefined (NaN) at the returned point",
+                            key="success_nan_violation"))
     return out
 
 
@@ -606,6 +627,15 @@ def c08(rec, st):
         return out
     if res["success"] and not (math.isfinite(float(res["fun"])) and math.isfinite(float(res["maxcv"]))):
         out.append(Viol("C08", "c", "success with fun=%r maxcv=%r" % (res["fun"], res["maxcv"]), key="success_nan"))
+    elif res["success"] and consistent(rec.stmt) and not refmodel.contradictory_limits(rec.stmt):
+        evals, _ = eval_table(rec)
+        if evals and res.get("x") is not None and len(res["x"]) == n:
+            cands, _ = find_eval_of_x(evals, res["x"])
+            cands = [e for e in cands if e.fun is not None and beq(float(e.fun), float(res["fun"]))]
+            if cands and all(V_of(rec, e)[2] for e in cands):
+                out.append(Viol("C08", "c", "labelled successful although a constraint function returned NaN at the "
+                                "returned point (the true maxcv is undefined, %r is reported)" % (res["maxcv"],),
+                                key="success_undefined_violation"))
     ps = rec.probe
     if ps is not None:
         for k, ev in enumerate(ps.evals):
@@ -659,7 +689,7 @@ def c09(rec, st):
         if has_nan:
             amb = True
         else:
-            if near_tol(V, tol) or (V > 0 and abs(V - tol) <= maxcv_allow(V, scale)):
+            if ambiguous_feasibility(stmt, V, scale, tol):
                 amb = True
             feas = V <= tol
             if has_obj:
@@ -744,6 +774,18 @@ def c09(rec, st):
                         % (res["fun"], res["maxcv"], target, tol), key="result_target"))
     if status == 4 and not (float(res["maxcv"]) <= tol):
         out.append(Viol("C09", "c", "status 4 but result maxcv=%r > %r" % (res["maxcv"], tol), key="result_feasible"))
+    if status in (1, 4) and not out and res.get("x") is not None and len(res["x"]) == stmt["n"]:
+        # ... judged by the true violation of the returned point, not only by the reported one
+        cands, _ = find_eval_of_x(evals, res["x"])
+        cands = [e for e in cands if e.fun is not None and beq(float(e.fun), float(res["fun"]))]
+        if cands:
+            tv = [V_of(rec, e) for e in cands]
+            if all(t[2] for t in tv):
+                out.append(Viol("C09", "c", "status %d but a constraint is undefined (NaN) at the returned point" % status,
+                                key="result_undefined_violation"))
+            elif all((not t[2]) and t[0] > tol and not ambiguous_feasibility(stmt, t[0], t[1], tol) for t in tv):
+                out.append(Viol("C09", "c", "status %d but the returned point violates the constraints by %r > %r"
+                                % (status, tv[0][0], tol), key="result_true_violation"))
     if status == 3:
         cbs = [e for e in rec.events if e["k"] == "cb" and not e.get("probe")]
         if cbs and cbs[-1]["x"] and not rec.stmt["callback"].get("mutate"):
